@@ -34,7 +34,14 @@ def avg_case(args):
                  for _ in range(rng.randint(1, 3))] for c in range(n_clients)}
     shared = rng.random() < 0.4
     out = []
-    for si in range(10 if tier == 'quick' else 60):
+    # seeded random schedules, plus every single-preemption schedule of the first two clients up to a
+    # bound (one client runs k actions, the other runs to completion, the first finishes): the window
+    # between two statements of one call is entered systematically
+    schedules = [rng.choices(list(progs), k=rng.randint(5, 80)) for _ in range(10 if tier == 'quick' else 60)]
+    for a, b in ((0, 1), (1, 0)):
+        for k in range(0, 12 if tier == 'quick' else 30):
+            schedules.append([a] * k + [b] * 200 + [a] * 200)
+    for schedule in schedules:
         d = tempfile.mkdtemp(prefix='c20-', dir=scratch_root())
         env.core.sqlite3._timeout = 0
         try:
@@ -44,6 +51,7 @@ def avg_case(args):
             caches = {c: (base_cache if shared else diskcache.Cache(d, timeout=0)) for c in progs}
             sch = Scheduler(env.rec)
             events = []
+            pops = []
 
             def mk(cid):
                 cache = caches[cid]
@@ -59,13 +67,13 @@ def avg_case(args):
                     else:
                         r = ave.pop()
                         events.append('p')
+                        pops.append((len(events) - 1, None if r is None else Fraction(r).limit_denominator(10 ** 6)))
                         return repr(r)
                     return 'n'
                 return prepare, progs[cid], execute
-            schedule = rng.choices(list(progs), k=rng.randint(5, 80))
             ok = sch.run({c: mk(c) for c in progs}, schedule)
             final = diskcache.Averager(base_cache, 'avg').get()
-            out.append({'ok': ok, 'events': list(events), 'final': None if final is None else Fraction(final).limit_denominator(10 ** 6)})
+            out.append({'ok': ok, 'events': list(events), 'pops': list(pops), 'final': None if final is None else Fraction(final).limit_denominator(10 ** 6)})
         finally:
             env.core.sqlite3._timeout = None
             for c in set(caches.values()) | {base_cache}:
@@ -162,6 +170,17 @@ def run(tier, seed, rng, known, replay):
             want = None if int(count) == 0 else Fraction(int(total), int(count))
             if r['final'] != want:
                 why = 'Averager reports %s, the completed adds since the last pop give %s (events %s)' % (r['final'], want, ','.join(r['events']))
+            # what each pop returned: the mean of the adds completed since the previous pop (in commit order)
+            tot, cnt = Fraction(0), 0
+            popped = dict(r.get('pops', []))
+            for i, e in enumerate(r['events']):
+                if e == 'p':
+                    wantp = None if cnt == 0 else tot / cnt
+                    if i in popped and popped[i] != wantp and not why:
+                        why = 'pop() returned %s, the adds completed since the last pop give %s (events %s)' % (popped[i], wantp, ','.join(r['events']))
+                    tot, cnt = Fraction(0), 0
+                else:
+                    tot, cnt = tot + int(e[1:]), cnt + 1
         if why and len(violations) < 3:
             violations.append({'replay': {'property': 'C20', 'kind': 'averager', 'case_seed': c['seed'], 'programs': {str(k): v for k, v in c['progs'].items()},
                                           'events': r['events'], 'acceptor': why}, 'found_input': True, 'what': why})
